@@ -10,7 +10,7 @@ from checks import cpu, execgen, c06
 def run(ctx):
     ctx.rule = ("(1) scratch registers: every prefix x opcode x mode-byte structure executed twice from the same architectural state, once with TEMP0-13 random and once with TEMP0-13 = 0, on the Python emulator and on the Rust core: "
                 "architectural results (PC, BA, I, X, Y, U, S, F, low-power flag, written memory) must be identical; (2) histories: generated programs run N+M steps in one emulator vs N steps, architectural registers + memory carried into a fresh "
-                "emulator/LlamaState (call bookkeeping, scratch registers, decoder caches dropped), then M steps, on both cores - including self-modifying programs whose store rewrites an operand byte a few bytes ahead; (3) repeatability: the same cases re-run later in the same harness process (after thousands of other emulator instances) give identical answers; "
+                "emulator/LlamaState (call bookkeeping, scratch registers, decoder caches dropped), then M steps, on both cores - including self-modifying programs whose store rewrites an operand byte a few bytes ahead; (3) repeatability: the same cases re-run later in the same harness process (after thousands of other emulator instances) give identical answers, and a case run right after a one-byte sibling at the same address answers what it answers alone; "
                 "(4) every lifted IL of the sweep passes the in-model definite-assignment check of the scratch registers (Model/TempSafe.v, proved sound in Coq); non-trivial = executable valid encoding; distinct by bytes+state")
     ctx.trusted += ["correspondence harness: exec_cmd.py / exec_cmd.rs (exec1 with TEMP registers set through Registers.set / LlamaState::set_reg; exec_split), extracted model_driver (exec_py, tsafe)",
                     "modelled not verified: the Python core as for C04; Rust call bookkeeping (call_page_stack, call_depth), PERF_* statics, cached decoder: not modelled, covered by the split-run and repeat comparisons on the implementation"]
@@ -64,6 +64,48 @@ def run(ctx):
             if oc[core][off + j] != oa[core][i]:
                 ctx.report([core, "same_case_different_answer_later_in_process"], f"case {i} answered differently when re-run after {off + j} other cases in one process", {"case": "exec1 " + la[i], "first": oa[core][i][:300], "later": oc[core][off + j][:300]})
     ctx.count("repeat_cases", len(sample))
+    # byte siblings at the same address: a case, then the same state with ONE later instruction byte changed (the last byte of
+    # the encoding half of the time), run back to back in one process - what self-modifying code or a host patching an operand
+    # does.  The sibling must answer what it answers in a process that never saw the original (anything remembered per
+    # address / per leading bytes between decodes shows as a difference)
+    sib_src = []
+    for i, (c, m) in enumerate(zip(cases, oa["model"])):
+        pm = cpu.parse(m)
+        if pm is None or not pm.get("k", "").startswith("F:"):
+            continue
+        try:
+            n = int(pm["k"].split(":")[1])
+        except (ValueError, IndexError):
+            continue
+        if n >= 2:
+            sib_src.append((i, n))
+    # long encodings first (they are the rare ones), then a random sample
+    sib_src.sort(key=lambda t: -t[1])
+    nlong = 400 if ctx.tier == "thorough" else 120
+    chosen = sib_src[:nlong] + rng.sample(sib_src[nlong:], min(len(sib_src) - nlong, 2000 if ctx.tier == "thorough" else 300)) if len(sib_src) > nlong else sib_src
+    sibs = []
+    for i, n in chosen:
+        c = cases[i]
+        bs = bytearray(bytes.fromhex(c[0]))
+        k = n - 1 if rng.random() < 0.5 else rng.randrange(1, n)
+        if k >= len(bs):
+            continue
+        bs[k] ^= rng.choice([1, 2, 0x10, 0x80, rng.randrange(1, 256)])
+        sibs.append((i, (bs.hex(), c[1], c[2], c[3], c[4])))
+    ls = cpu.wire([sc for _, sc in sibs])
+    alone = corr.run_streams(ctx, ls, {"py": ("py", "exec1"), "rs": ("rs", "exec1")})
+    inter = []
+    for (i, _), l in zip(sibs, ls):
+        inter += [la[i], l]
+    after = corr.run_streams(ctx, inter, {"py": ("py", "exec1"), "rs": ("rs", "exec1")}, sharded=False)
+    for j, ((i, sc), l) in enumerate(zip(sibs, ls)):
+        for core in ("py", "rs"):
+            ctx.evaluations += 1
+            if after[core][2 * j + 1] != alone[core][j]:
+                ctx.report([core, "result_depends_on_the_instruction_executed_before_at_the_same_address"],
+                           f"{sc[0]} at {sc[1]:#x} answers differently right after {cases[i][0]} was executed at that address in the same process",
+                           {"case": "exec1 " + l, "history": ["exec1 " + la[i], "exec1 " + l], "alone": alone[core][j][:300], "after_sibling": after[core][2 * j + 1][:300]})
+    ctx.count("byte_sibling_pairs", len(sibs))
     # another emulator instance constructed after the one under test (and never used) must not matter: the same sample, plus
     # every case whose first byte is an intrinsic (RESET, HALT, OFF, TCL, WAIT), run with such a bystander
     by_idx = sorted(set(sample) | {i for i, c in enumerate(cases) if c[0][:2] in ("ff", "de", "df", "ce", "ef") or c[0][2:4] in ("ff", "de", "df")})
